@@ -475,6 +475,173 @@ pub fn replay(v: &serde_json::Value) -> i32 {
     }
 }
 
+// ---- files written at start-up outside the database (mTLS identities) -------------------------------
+
+/// What the kill leaves of the file that was about to be written.
+#[derive(Clone, Copy, Debug, PartialEq, Eq, serde::Serialize, serde::Deserialize)]
+pub enum Torn {
+    /// killed before the file was opened
+    NotTouched,
+    /// killed between `open(O_CREAT|O_TRUNC)` and `write` (what `std::fs::write` does): the file is there, empty
+    Empty,
+}
+
+/// One crash while the identities are (re)generated: the n-th file write, and what is left of it.
+pub type BootCrash = (u64, Torn);
+
+const TLS_FILES: [&str; 6] = ["ca-key.pem", "ca.pem", "server-key.pem", "server.pem", "client-key.pem", "client.pem"];
+
+/// The part of teosd's start-up that touches these files (main.rs: tls_init, then the private API's TLS setup).
+fn tls_boot(dir: &std::path::Path) -> Result<(), String> {
+    let (identity, ca) = teos::tls::tls_init(dir).map_err(|e| format!("tls_init failed: {e:?}"))?;
+    let tls = tonic::transport::ServerTlsConfig::new().identity(identity).client_ca_root(tonic::transport::Certificate::from_pem(ca));
+    tonic::transport::Server::builder().tls_config(tls).map(|_| ()).map_err(|e| format!("the private API cannot be set up with the stored identity: {e:?}"))?;
+    // the identities left on disk must be usable (the operator's CLI reads client*.pem and ca.pem): every key
+    // and certificate parses and each certificate is for its key
+    for id in ["ca", "server", "client"] {
+        let key = std::fs::read_to_string(dir.join(format!("{id}-key.pem"))).map_err(|e| format!("{id}-key.pem: {e}"))?;
+        let cert = std::fs::read(dir.join(format!("{id}.pem"))).map_err(|e| format!("{id}.pem: {e}"))?;
+        let key = rcgen::KeyPair::from_pem(&key).map_err(|e| format!("{id}-key.pem is not a key: {e:?}"))?;
+        let (_, pem) = x509_parser::pem::parse_x509_pem(&cert).map_err(|e| format!("{id}.pem is not a certificate: {e:?}"))?;
+        let x = pem.parse_x509().map_err(|e| format!("{id}.pem is not a certificate: {e:?}"))?;
+        if x.public_key().raw != key.public_key_der().as_slice() {
+            return Err(format!("{id}.pem does not certify {id}-key.pem"));
+        }
+    }
+    Ok(())
+}
+
+fn tls_dir_state(dir: &std::path::Path) -> String {
+    let mut v = Vec::new();
+    for f in TLS_FILES {
+        match std::fs::read(dir.join(f)) {
+            Err(_) => {}
+            Ok(b) if b.is_empty() => v.push(format!("{f}-empty")),
+            Ok(_) => {}
+        }
+    }
+    if v.is_empty() {
+        "no-empty-file".into()
+    } else {
+        v.join("+")
+    }
+}
+
+fn tls_files(dir: &std::path::Path) -> Vec<(String, Vec<u8>)> {
+    TLS_FILES.iter().map(|f| (f.to_string(), std::fs::read(dir.join(f)).unwrap_or_default())).collect()
+}
+
+/// Runs the start-ups of `crashes` (each killed at its point), then two uninterrupted ones.
+/// Ok(number of crash points of a full first boot) or Err(signature, detail).
+fn boot_files_case(crashes: &[BootCrash]) -> Result<u64, (String, String)> {
+    let scratch = crate::tower::ScratchDb::new();
+    let dir = scratch.path.parent().unwrap().join("tls");
+    std::fs::create_dir_all(&dir).unwrap();
+    let mut last_site = String::new();
+    for (n, torn) in crashes {
+        teos_common::verif::arm(Some(*n));
+        let r = std::panic::catch_unwind(std::panic::AssertUnwindSafe(|| tls_boot(&dir)));
+        teos_common::verif::arm(None);
+        match r {
+            Err(p) => {
+                let m = p.downcast_ref::<teos_common::verif::CrashMarker>().ok_or_else(|| ("boot-files:panic".to_owned(), crate::world::panic_message(&p)))?;
+                last_site = format!("{}#{}", m.site, n);
+                if *torn == Torn::Empty && m.site.contains("write") {
+                    // the hook names the file that was about to be created/truncated and written
+                    let f = teos_common::verif::last_file().expect("crash point of a file write without a file");
+                    assert!(f.starts_with(&dir));
+                    std::fs::write(f, b"").unwrap();
+                }
+            }
+            Ok(_) => {
+                // fewer crash points than n: nothing was killed
+                return Ok(teos_common::verif::count());
+            }
+        }
+    }
+    // restart: must come up, and come up again with the very same identities
+    let left = tls_dir_state(&dir);
+    let _ = &last_site;
+    let mut out = Ok(0);
+    match std::panic::catch_unwind(std::panic::AssertUnwindSafe(|| tls_boot(&dir))) {
+        Ok(Ok(())) => {
+            let points = teos_common::verif::count();
+            let first = tls_files(&dir);
+            match std::panic::catch_unwind(std::panic::AssertUnwindSafe(|| tls_boot(&dir))) {
+                Ok(Ok(())) => {
+                    if tls_files(&dir) != first {
+                        out = Err((format!("boot-files:identities-change-at-every-restart:crash-left:{left}"), format!("crashes {crashes:?}")));
+                    } else {
+                        out = Ok(points);
+                    }
+                }
+                Ok(Err(e)) => out = Err((format!("boot-files:second-restart-fails:crash-left:{left}"), format!("crashes {crashes:?}: {e}"))),
+                Err(p) => out = Err(("boot-files:panic".to_owned(), crate::world::panic_message(&p))),
+            }
+        }
+        Ok(Err(e)) => {
+            out = Err((format!("boot-files:restart-fails:crash-left:{left}"), format!("crashes {crashes:?} (last at {last_site}): {e}")));
+        }
+        Err(p) => out = Err(("boot-files:panic".to_owned(), crate::world::panic_message(&p))),
+    }
+    out
+}
+
+pub fn replay_boot_files(v: &serde_json::Value) -> i32 {
+    let crashes: Vec<BootCrash> = serde_json::from_value(v["replay"]["crashes"].clone()).unwrap();
+    match boot_files_case(&crashes) {
+        Ok(n) => {
+            println!("start-up after {crashes:?}: fine ({n} file writes)");
+            0
+        }
+        Err((s, d)) => {
+            println!("VIOL {s} :: {d}");
+            1
+        }
+    }
+}
+
+/// Every crash point of the first start-up x what is left of the file, then every crash point of the
+/// start-up after that x the same (two nested crashes), then two clean start-ups.
+fn boot_files(run: &Run) -> (u64, u64) {
+    // crash points of a first start (every file write and every move into place)
+    let full = {
+        let scratch = crate::tower::ScratchDb::new();
+        let dir = scratch.path.parent().unwrap().join("tls");
+        std::fs::create_dir_all(&dir).unwrap();
+        teos_common::verif::arm(None);
+        let _ = tls_boot(&dir);
+        teos_common::verif::count()
+    };
+    let mut cases = 0u64;
+    let mut killed = 0u64;
+    let mut todo: Vec<Vec<BootCrash>> = Vec::new();
+    for n in 0..full {
+        for t in [Torn::NotTouched, Torn::Empty] {
+            todo.push(vec![(n, t)]);
+            for m in 0..full {
+                for t2 in [Torn::NotTouched, Torn::Empty] {
+                    todo.push(vec![(n, t), (m, t2)]);
+                }
+            }
+        }
+    }
+    let (res, _) = par_map(&todo, None, |_, c| boot_files_case(c));
+    for (c, r) in todo.iter().zip(res.into_iter()) {
+        cases += 1;
+        match r {
+            Some(Ok(_)) => killed += 1,
+            Some(Err((sig, detail))) => {
+                killed += 1;
+                run.violation(&sig, detail, json!({"engine": "boot-files", "crashes": c}), c.len());
+            }
+            None => {}
+        }
+    }
+    run.set("boot_file_writes_of_a_first_start", json!(full));
+    (cases, killed)
+}
+
 pub fn c03(tier: Tier) -> i32 {
     let run = Run::new("C03", "fault_enumeration", tier);
     let cfg = TowerCfg { slots: 3, duration: 400, grace: 6, txindex: false };
@@ -591,7 +758,25 @@ pub fn c03(tier: Tier) -> i32 {
             }
         }
     }
-    run.set("evaluations", json!(cases));
+    // what a restarted tower rebuilds from the node (main.rs, which the in-process wiring only mirrors):
+    // the restart histories of the conformance set against the real teosd
+    if !crate::conform::teosd_binary().exists() {
+        eprintln!("MACHINERY-ERROR: {} is missing (./check builds it)", crate::conform::teosd_binary().display());
+        return 2;
+    }
+    let (ok, bad) = crate::conform::run_restarts();
+    run.set("traces_validated_against_impl", json!(ok));
+    for (name, e) in bad {
+        run.violation(
+            &format!("conformance:restarted-teosd-differs-from-in-process-wiring:{name}"),
+            format!("the real teosd binary and the harness's mirror of main.rs disagree: {e}"),
+            json!({"engine": "conform", "trace": name}),
+            1,
+        );
+    }
+    let (boot_cases, _) = boot_files(&run);
+    run.set("boot_file_crash_cases", json!(boot_cases));
+    run.set("evaluations", json!(cases + boot_cases));
     run.set("distinct_nontrivial", json!(points));
     run.set("histories", json!(histories.len()));
     run.set("histories_fully_crash_enumerated", json!(covered));
